@@ -189,25 +189,27 @@ def run_validate(ctx, nscen, all_modes):
 # ------------------------------------------------------------------ test command
 
 def expectations_for(rng, statuses):
-    """statuses: [(name, st)] unique names. returns (dict expectations, list expectation_result terms)"""
+    """statuses: [(name, [status of every definition])]. returns (dict expectations, list expectation_result terms).
+    An expectation is met iff some definition has the expected non-SKIP status, or all are SKIP when SKIP is expected
+    (the statement's rule for rules defined several times)."""
     exp, terms = {}, []
-    for name, st in statuses:
+    for name, sts in statuses:
         r = rng.random()
         if r < 0.2:
             terms.append('ENoExpectation')
             continue
-        if r < 0.7:
-            exp[name] = st
-            terms.append('EMatched')
-        else:
-            exp[name] = rng.choice([s for s in ('PASS', 'FAIL', 'SKIP') if s != st])
-            terms.append('EMismatch')
+        e = rng.choice(sts) if r < 0.6 else rng.choice(['PASS', 'FAIL', 'SKIP'])
+        exp[name] = e
+        met = (e != 'SKIP' and e in sts) or (e == 'SKIP' and all(x == 'SKIP' for x in sts))
+        terms.append('EMatched' if met else 'EMismatch')
     return exp, terms
 
 
 TEST_RULES = ['rule check when ok exists { ok == true }\nrule n_pos { n >= 0 }\n',
               'rule a { ok exists }\nrule b when a { n == 1 }\nrule c {\n  not a\n}\n',
-              'rule only { n in [1, 2, 3] }\n']
+              'rule only { n in [1, 2, 3] }\n',
+              'rule dup when ok exists { n == 1 }\nrule dup when n exists { n >= 0 }\nrule other { ok == true }\n',
+              'rule dup when zz exists { n == 1 }\nrule dup when ok exists { ok == true }\nrule dup { n == 5 }\n']
 TEST_INPUTS = [{"ok": True, "n": 1}, {"ok": False, "n": 2}, {"n": 5}, {"ok": True, "n": -1}]
 
 
@@ -248,12 +250,13 @@ def run_test_cmd(ctx, nscen):
         case['outcome'] = o
         if o in ('PASS', 'FAIL', 'SKIP'):
             sts = e2e.rule_statuses(rw)
-            seen, uniq = set(), []
-            for n, s in sts:
-                if n not in seen:
-                    seen.add(n)
-                    uniq.append((n, s))
-            case['dups'] = len(uniq) != len(sts)
+            uniq, idx = [], {}
+            for n, st in sts:
+                if n not in idx:
+                    idx[n] = len(uniq)
+                    uniq.append((n, []))
+                uniq[idx[n]][1].append(st)
+            case['dups'] = False
             case['exp'], case['terms'] = expectations_for(rng, uniq)
         else:
             case['exp'], case['terms'] = {'x': 'PASS'}, None
